@@ -55,7 +55,7 @@ PROPS = {
         R("rand", "typed", "typediter", 60, 40)]),
     "C14": dict(tags=["C14"], runs=[
         R("rand", "64", "fail", 60, 40), R("rand", "32", "fail", 60, 40), R("det", "64", "fail", 30, 40),
-        R("rand", "typed", "typedfail", 12, 30)]),
+        R("rand", "typed", "typedfail", 24, 30)]),
     "C15": dict(tags=["C15"], runs=[
         R("rand", "64", "hints", 200, 60), R("rand", "32", "hints", 200, 60), R("det", "64", "hints", 80, 60),
         R("rand", "typed", "typedhints", 30, 40)]),
